@@ -40,6 +40,8 @@ type verifBBWorld struct {
 	suf   base.Suffrage
 	box   *Ballotbox
 	th    base.Threshold
+	// onThreshold runs whenever the box asks for the threshold (a point in the middle of counting)
+	onThreshold func()
 }
 
 func verifBBNewWorld(n int, th base.Threshold) *verifBBWorld {
@@ -52,7 +54,12 @@ func verifBBNewWorld(n int, th base.Threshold) *verifBBWorld {
 		panic(err)
 	}
 	w.suf = suf
-	w.box = NewBallotbox(w.nodes[0].Address(), func() base.Threshold { return w.th },
+	w.box = NewBallotbox(w.nodes[0].Address(), func() base.Threshold {
+		if w.onThreshold != nil {
+			w.onThreshold()
+		}
+		return w.th
+	},
 		func(base.Height) (base.Suffrage, bool, error) { return w.suf, true, nil })
 	return w
 }
